@@ -21,14 +21,14 @@ CHECKS["C14"] = dict(level="proof", engine="pyvc",
     text="brentsroot and brentsrootvec (element-wise lifted; callable and list front ends; tol given / None) are verified against the property's clauses "
          "for every function f (uninterpreted), bracket order and tolerance: bracket invariant, P1 inside bracket, P2 located sign change on the convergence exit, "
          "P4 meaning of success, P5 success under a sign change at any scale, P6 no false success, iteration-cap variant, and P7 scalar/vector agreement as a lock-step "
-         "relational proof (initial states, one iteration, exit decisions). The scalar early exit (inf, False) is a recorded known finding (F10a).",
+         "relational proof (initial states, one iteration, exit decisions); _bracket_tol under contract (the stopping width is the requested tolerance but never below eps * max(|a|, |b|): the lemma that makes the stopping test reachable in floating point). The scalar early exit (inf, False) is a recorded known finding (F10a).",
     note="floats as reals (A1) - the float side (float32, scales 1e-6..1e9) is only exercised by the bounded native family, labelled bounded; the interpolated point s is abstracted "
          "to an arbitrary real in the contract proofs; 'within tol' is proved for the convergence exit, on the 64-iteration cap exit only 'sign change between the returned end points'; A4 lifting",
     technique="contracts + loop invariants + relational lock-step on the real AST, VCs discharged by z3 (NRA + UF)",
     design_ref="DESIGN.md section 4 C14")
 CHECKS["C01"] = dict(level="proof", engine="tabinv+pyvc",
     text="All rooted-tree order conditions up to the declared order of the 29 Runge-Kutta tables (RadauIIA19: simplifying assumptions B(19), C(10), D(9) + trees to order 9), row sums, "
-         "estimator consistency with the weights probed from the real get_error_estimate, P-series conditions of the 3 splitting tables, and the Aitken-Neville moment conditions on the weights "
+         "estimator consistency with the weights extracted by symbolic execution of the real get_error_estimate (incl. the RadauIIA19 override; cross-checked against the weights probed on the imported object), P-series conditions of the 3 splitting tables, and the Aitken-Neville moment conditions on the weights "
          "the real adaptive_richardson returns (extracted by symbolic execution for 2..5 levels and every shipped base order; subdiv_step proved to be the chained composition). "
          "Exact rational arithmetic; RK14(12) orders 13-14 (49 000 trees) are in the thorough tier. The declared orders of the two high-order splitting schemes are a recorded known finding (F3).",
     note="A8 (Butcher's order theorem, P-series, simplifying-assumption theorem, Aitken-Neville) is cited, not mechanised; rounding slack derived, margins reported; A1",
@@ -36,15 +36,16 @@ CHECKS["C01"] = dict(level="proof", engine="tabinv+pyvc",
     design_ref="DESIGN.md section 4 C01")
 CHECKS["C02"] = dict(level="proof", engine="pyvc",
     text="compute_step, RungeKuttaIntegrator.step, algebraic_system and ExplicitSymplecticIntegrator.step are executed symbolically (uninterpreted right-hand side, symbolic t, y, h; LinComb domain) for "
-         "all 32 shipped tables and proved equal to an independently written specification of the Runge-Kutta / drift-kick formulas, incl. stale-buffer frames and FSAL branches; "
+         "all 32 shipped tables and proved equal to an independently written specification of the Runge-Kutta / drift-kick formulas, incl. stale-buffer frames and FSAL branches; the branch flags (_explicit, _fsal, _adaptive) are proved from the real constructors (TableauIntegrator / RungeKuttaIntegrator.__init__) to be the defining predicates of the tables; "
+         "the tolerance handed to the nonlinear solver is a function of this step's state and the integrator's atol / rtol only (data-flow clause, step executed from an arbitrary solver_dict with the keys the constructor creates); "
          "RungeKuttaIntegrator.__call__ is executed over its control skeleton: an implicit step whose solve did not converge is never returned.",
     note="the nonlinear solve itself is external (A6, assumed contract; native stage residuals are a bounded clause); floats as reals (A1); shapes/dtypes not modelled",
     technique="symbolic execution of the real functions in a free-vector-space domain, exact polynomial identity; control-flow post-condition by z3",
     design_ref="DESIGN.md section 4 C02")
 CHECKS["C10"] = dict(level="proof", engine="tabinv+pyvc",
     text="M = 0 and symmetry of the 3 symplectic-flagged Runge-Kutta tables; pure-row / palindromic / sum-one invariants of the 3 splitting tables; the real ExplicitSymplecticIntegrator.step proved to be a composition "
-         "of shears and step(h) followed by step(-h) proved to be the identity for every separable right-hand side (shipped coefficients, autonomous; symbolic palindromic coefficients, time-dependent forces); unconverged implicit steps never returned.",
-    note="A8 (M=0 => symplectic, shears symplectic, symmetric => reversible for RK) cited; bounded energy error is a corollary, not checked; A1; mask construction and float behaviour are bounded native clauses",
+         "of shears and step(h) followed by step(-h) proved to be the identity for every separable right-hand side (shipped coefficients, autonomous; symbolic palindromic coefficients, time-dependent forces); the kick / drift masks built by the real ExplicitSymplecticIntegrator.__init__ are complementary 0/1 vectors for a state of any length (default: second half kicks; a given mask is taken as is); unconverged implicit steps never returned.",
+    note="A8 (M=0 => symplectic, shears symplectic, symmetric => reversible for RK) cited; bounded energy error is a corollary, not checked; A1; float behaviour is a bounded native clause",
     technique="exact table invariants + relational (two-run) symbolic execution in the LinComb domain",
     design_ref="DESIGN.md section 4 C10")
 CHECKS["C11"] = dict(level="proof", engine="tabinv+pyvc",
@@ -57,8 +58,9 @@ CHECKS["C16"] = dict(level="proof", engine="pyvc",
     text="The Jacobian dispatch of DiffRHS is verified as a state machine: jac() and every mutator (hook, unhook, `jac =` through __setattr__, set_jac_base_order, __copy__) are executed symbolically from every "
          "abstract state satisfying the invariant Inv_J and re-establish it, so every call sequence is covered; jac returns the user's function value when one is attached and otherwise a finite-difference wrapper whose "
          "closure evaluates rhs at the time of this call (proved by executing the real closure), counted by nfev; njev increments once. JacobianWrapper.estimate is executed on an affine map with a symbolic stencil "
-         "(moment conditions checked on the real weights): exact, entry [i, j] = d f_i / d y_j; check_converged against its specification.",
-    note="finite-difference accuracy on nonlinear maps is only a bounded native clause (labelled); JacobianWrapper(f)(y) abstracted to 'derivative of its closure'; A1, A2, A3, A5",
+         "(moment conditions checked on the real weights): exact, entry [i, j] = d f_i / d y_j; estimate writes no attribute of the wrapper (nothing cached between evaluations); richardson / adaptive_richardson / __call__ executed on the estimate's contract for every number "
+         "of levels the constructor can produce: the extrapolated value of an affine map is exactly its matrix; an attached user Jacobian survives set_jac_base_order and __copy__; check_converged against its specification.",
+    note="finite-difference accuracy on nonlinear maps is only a bounded native clause (labelled); inside DiffRHS.jac the wrapper call is abstracted to 'derivative of its closure' (the wrapper itself is verified separately on affine maps); A1, A2, A3, A5",
     technique="state-machine invariant by symbolic execution from every abstract state + exact polynomial identity for the affine case",
     design_ref="DESIGN.md section 4 C16")
 CHECKS["C19"] = dict(level="proof", engine="pyvc",
@@ -85,7 +87,7 @@ CHECKS["C04"] = dict(level="proof", engine="pyvc",
     design_ref="DESIGN.md section 4 C04")
 CHECKS["C05"] = dict(level="other", engine="pyvc+monitor",
     text="Proved for all inputs: the step controller (sign preserved, corr in [1 - pi/4, 1 + pi/2), redo iff corr < 0.81, frame), the implicit-aware wrapper, and RungeKuttaIntegrator.__call__ over its control skeleton: every retry "
-         "after a rejection is strictly smaller and of the same sign, normal return implies the controller accepted (and Newton converged), otherwise FailedToMeetTolerances; integrate() records nothing for a failed step. "
+         "after a rejection is strictly smaller and of the same sign, normal return implies the controller accepted (and Newton converged), otherwise FailedToMeetTolerances; integrate() records nothing for a failed step; the controller memory that survives from one call to the next (solver_dict_keep_keys, built by the real RungeKuttaIntegrator.__init__ for every shipped class) holds no per-step quantity and the first error test of a call sees none of it; a tolerance assigned through the rtol / atol setters rebuilds the integrator from the current settings. "
          "NOT proved: the headline error bound (asymptotic floating-point statement) -- bounded native family only, labelled bounded.",
     note="level 'other' because the property's first clause is only bounded; arctan / power functions axiomatised; A1",
     technique="contracts on controller and retry loop discharged by z3; bounded native accuracy family for the error-bound clause",
@@ -93,29 +95,29 @@ CHECKS["C05"] = dict(level="other", engine="pyvc+monitor",
 CHECKS["C12"] = dict(level="proof", engine="pyvc",
     text="The exceptional post-condition of the real integrate() is proved at every raising program point (integrator call, buffer growth, each callback; Exception subclasses and KeyboardInterrupt; also from a pre-state that already "
          "failed): FailedIntegration with the original cause (KeyboardInterrupt as itself), status is that object, buffers trimmed, prefix untouched, recorded steps monotone and not beyond the target, dt != 0 -- the representation "
-         "invariant integrate() requires, so resumption is C03. RungeKuttaIntegrator.__call__: a non-caught exception from step() escapes from the first attempt and every retry. reset(): C13's obligations.",
+         "invariant integrate() requires, so resumption is C03. RungeKuttaIntegrator.__call__: a non-caught exception from step() escapes from the first attempt and every retry. reset() from a failed state (also one in which the fault hit the very first step: counter 0, status = the exception object): C13's obligations, proved here for that state.",
     note="faults inside the event block: one terminal event with dense output kept, both directions, deductively; every position k of short runs (rhs, callback and event-function faults) in the bounded native fault-injection family; swallowed ValueError is a recorded known finding (F26); A1",
     technique="exceptional post-conditions at raising program points (crash-point enumeration over program points) discharged by z3",
     design_ref="DESIGN.md section 4 C12")
 CHECKS["C13"] = dict(level="proof", engine="pyvc",
-    text="reset() executed symbolically from an arbitrary run-state establishes the value __init__ gives every run-state attribute (trajectory = initial point, fresh empty DenseOutput, dt = oriented initial step, nfev 0, status 0, "
+    text="OdeSystem.__init__ is executed symbolically (plain callable / DiffRHS right-hand side, dense on / off, either orientation of the span and of dt) and proved to establish the construction contract (representation invariant of integrate, trajectory = the initial point, dt oriented toward tf, settings stored, status 0, no events, fresh dense output and integrator, one counted evaluation at the initial point); reset() executed symbolically from an arbitrary run-state re-establishes, field by field, what the constructor established (relational obligation) (trajectory = initial point, fresh empty DenseOutput, dt = oriented initial step, nfev 0, status 0, "
          "no events, new integrator built from the current settings), settings untouched; frame completeness of the attribute write set (AST); integrate() at the target changes nothing; y0 cloned, no write through y0/constants, "
-         "no clock/random source (AST scans).",
+         "no clock/random source (AST scans); the setters of rtol / atol / dt / tf / t0 / constants executed from an arbitrary run state: the setting takes the value, a tolerance change rebuilds the integrator from the current settings, dt keeps pointing from t0 toward tf, nothing of the run state changes; an attribute the sidecar does not know that integrate() writes and reads but reset() never writes is a violation.",
     note="split-span agreement 'within tolerance' and bit-for-bit equality with a fresh system are exercised by the bounded native history family; numpy determinism assumed",
-    technique="symbolic execution of reset from a havocked state + syntactic frame obligations",
+    technique="symbolic execution of the constructor, of reset and of the setters from havocked states (relational reset-vs-constructor obligation) + syntactic frame / data-flow obligations",
     design_ref="DESIGN.md section 4 C13")
 CHECKS["C20"] = dict(level="proof", engine="pyvc",
-    text="DiffRHS.__call__ counts completed calls only; jac counts once and its finite-difference closures are counted; no `.rhs(...)` call bypasses the counted path anywhere in the package (AST); reset zeroes nfev; in integrate() "
-         "every callback is invoked exactly once per iteration, in list order, after the new (t, y) row is recorded and visible, and the step handed to the integrator is the stored dt or the final clamp.",
+    text="DiffRHS.__call__ counts completed calls only; jac counts once and its finite-difference closures are counted; no `.rhs(...)` call bypasses the counted path anywhere in the package (AST); reset zeroes nfev; a new system starts from its own counted wrapper (a copy when a DiffRHS is passed: counters zeroed) and has made exactly one counted evaluation at the initial point (real OdeSystem.__init__ / DiffRHS.__copy__ executed); in integrate() "
+         "every callback is invoked exactly once per iteration, in list order, after the new (t, y) row is recorded and visible, and the step handed to the integrator is the stored dt or the final clamp -- also in the iteration that lands on a terminal event, however that iteration leaves the loop (obligation at iteration end and at `break`).",
     note="terminal-event sub-steps: the recursive integrate must be made without the caller's callbacks (pre-condition proved at the call site in the terminal-event configuration); torch paths cut (A5)",
     technique="ghost call logs in the symbolic execution of integrate + state-machine contracts of DiffRHS + package-wide AST frame scan",
     design_ref="DESIGN.md section 4 C20")
 CHECKS["C06"] = dict(level="proof", engine="pyvc",
     text="DenseOutput under contract with symbolic-length lists: add_interpolant keeps the ordering/coverage and cache invariants, lookup (value, gradient, vector) answers every query in the integrated range from the piece "
          "whose interval contains it, remove_interpolant drops the oldest / newest piece per direction (both run directions, pieces may leave gaps); integrate() with dense output kept (both run directions, the real add_interpolant on symbolic-length lists): exactly one piece per recorded step spanning [t_i, t_i+1] on normal and exceptional exit and across "
-         "continued calls; dense_output() builds the Hermite piece from (t, y, f) at both ends; the integrators leave initial_rhs == rhs(t, y) and final_rhs == rhs(t + dTime, y + dState) whatever the previous call's end point "
+         "continued calls; dense_output() builds the Hermite piece from (t, y, f) at both ends and CubicHermiteInterp.__init__ keeps each end's data with that end (value / slope at t0, t1 of the constructed piece, either orientation); the integrators leave initial_rhs == rhs(t, y) and final_rhs == rhs(t + dTime, y + dState) whatever the previous call's end point "
          "(with C17: nodes reproduced, C^1 joins with slopes equal to the right-hand side). The backward lookup defect F11 was repaired (fix: commit edcff3c) and its obligations are now discharged.",
-    note="O(h^4) between nodes = cubic exactness (C17) + Peano kernel theorem (A8); Richardson wrappers only natively; events in C07-C09; A1",
+    note="O(h^4) between nodes = cubic exactness (C17) + Peano kernel theorem (A8); sub-divided steps (Richardson wrappers: several pieces per step) only natively -- the roll-back defect F30 lived there and was found by probes, not by the one-piece-per-step model; events in C07-C09; A1",
     technique="data-structure invariant over an abstract view (parallel z3 arrays), contracts at call sites, LinComb domain for the slope clause",
     design_ref="DESIGN.md section 4 C06")
 CHECKS["C18"] = dict(level="proof", engine="pyvc",
@@ -123,7 +125,7 @@ CHECKS["C18"] = dict(level="proof", engine="pyvc",
          "first step clipped into [min_step, max_step], settings/method/events/callbacks passed through, clipping callback keeps |dt| in range and its sign, without t_eval (system.t, states with the time axis moved last), "
          "with t_eval (1..3 symbolic times, any order, repeats, both span directions) exactly the requested times in integration order to tol_epsilon, ValueError only for times outside the span, result fields are the system's own; "
          "max_step chain: integrate() with the clipping callback's contract never records a step longer than max_step (loop invariant on the real integrate).",
-    note="OdeSystem.__init__ represented by its contract; shapes for n-d states, dtypes and scipy parity are a bounded native family; getfullargspec / sort / transpose assumed (A3); A1",
+    note="inside solve_ivp the OdeSystem is represented by the construction contract, which is proved in the same run from the real OdeSystem.__init__; shapes for n-d states, dtypes and scipy parity are a bounded native family; getfullargspec / sort / transpose assumed (A3); A1",
     technique="modular verification of the facade against callee contracts + loop invariant for the max_step chain",
     design_ref="DESIGN.md section 4 C18")
 CHECKS["C07"] = dict(level="proof", engine="pyvc",
@@ -148,14 +150,14 @@ CHECKS["C09"] = dict(level="proof", engine="pyvc",
     text="integrate() with terminal events (every mix for n = 1, 2; both directions): handle_events cuts its list after the first terminal event; the terminal branch (roll back, drop the step's interpolant, integrate(root) by "
          "integrate's own contract proved in the same run, status 2) gives: last record = the terminal event, all earlier records of the call non-terminal and not later, last recorded time within 8 eps of the event time and never "
          "beyond it, buffers trimmed to it, status 2 reported as success with its message; otherwise status 1 and the run ends at its target; the post-state satisfies the representation invariant (trajectory + step interpolants) "
-         "the next call requires, on normal and exceptional exit.",
+         "the next call requires, on normal and exceptional exit; the same stop from a system whose earlier call failed (exception object still stored as status) still ends with status 2.",
     note="'last state on the event surface' and continuation results are bounded native clauses; dense output kept and infinite targets (both directions) are verified for n = 1 in the quick tier, mixes with n = 2 in the thorough tier; continuing with the same terminal event still monitored is known finding F27; A1",
     technique="contract + loop invariant on the real integrate with the recursive call replaced by its own proved contract, z3",
     design_ref="DESIGN.md section 10 (events)")
 CHECKS["C15"] = dict(level="proof", engine="pyvc",
     text="Success-flag dataflow of hybrj, newtontrustregion and nonlinear_roots on their real text, for every tolerance, iteration budget and problem size (arrays opaque, norms uninterpreted, unmodelled comparisons "
          "nondeterministic, iteration loops cut by invariants): a reported success entails a residual norm below the tolerance at the returned point unless it was reached through the step-size termination rule "
-         "(region A-xtol, bounded native only); the residual handed back is f at the point handed back (identity links along every path); in the front end the reported precision is that residual norm on the "
+         "(region A-xtol, bounded native only; the rule's scale is pinned by an iteration clause: xtol == tol * (n + ||x||) in both solvers, so the region cannot silently grow); the residual handed back is f at the point handed back (identity links along every path); in the front end the reported precision is that residual norm on the "
          "dogleg and Newton branches, success means a small residual or the step-size rule, and a failed attempt restarts the next solver from the caller's x0. The two defects this refuted (F18 trust-region collapse "
          "counted as success, F18b step norm reported as precision) were repaired.",
     note="what is proved is the dataflow of the flags, not convergence; MINPACK branch external (A6); the step-size rule region and result shapes are bounded native clauses (n = 1..12, float64 / longdouble); scalar wrapper not under contract",
